@@ -358,5 +358,5 @@ def run(ctx):
     ctx.parallel(_exh_worker, jobs)
     ctx.parallel(_placement_worker, [(k, ns) for k in range(ns)])
     ctx.exhaustive["intercept-literal and group-item placements"] = {"complete": True}
-    per = 120 if quick else 2500
+    per = 400 if quick else 4000
     ctx.parallel(_random_worker, [(k, per, 6 if k % 2 else 10) for k in range(ns)])
